@@ -124,6 +124,24 @@ func c08Mutants() []c08Mutant {
 			}
 			return append(append([][]byte{}, e.txs...), tx)
 		}},
+		{name: "parent hash with a byte in front (converts to the recorded head's hash)", build: func(e *c08Env) [][]byte {
+			return e.withPayload(func(p *goatxtypes.ExecutionPayload) bool {
+				p.ParentHash = append([]byte{0xaa}, p.ParentHash...)
+				return true
+			})
+		}},
+		{name: "beacon root with a byte in front (converts to the recorded root)", build: func(e *c08Env) [][]byte {
+			return e.withPayload(func(p *goatxtypes.ExecutionPayload) bool {
+				p.BeaconRoot = append([]byte{0x01}, p.BeaconRoot...)
+				return true
+			})
+		}},
+		{name: "fee recipient with twelve bytes in front (converts to the proposer's address)", build: func(e *c08Env) [][]byte {
+			return e.withPayload(func(p *goatxtypes.ExecutionPayload) bool {
+				p.FeeRecipient = append(append([]byte{}, make([]byte, 11)...), append([]byte{0x07}, p.FeeRecipient...)...)
+				return true
+			})
+		}},
 		{name: "wrong parent hash", build: func(e *c08Env) [][]byte {
 			return e.withPayload(func(p *goatxtypes.ExecutionPayload) bool {
 				// the grandparent (or the EL genesis): a block the engine knows, but not the recorded head
